@@ -86,6 +86,7 @@ type tres struct {
 	LaterClass  string   `json:"later_class"`  // class of a later call's error
 	LaterCode   uint32   `json:"later_code"`
 	HostCalls   int      `json:"host_calls,omitempty"`
+	HostAfter   int64    `json:"host_after,omitempty"` // nested guest calls made by host functions after the close
 	HostBad     []string `json:"host_bad,omitempty"` // nested guest calls that did not fail after close
 	NestedErrs  []string `json:"nested_errs,omitempty"`
 	Skipped     string   `json:"skipped,omitempty"`
@@ -234,14 +235,25 @@ func (st *tstate) nestedOutcome(m api.Module, err error) {
 	if r.Capped {
 		panic(errCap)
 	}
+	if r.ClosedSeen || m.IsClosed() {
+		// host functions entered again and again after the close although no tick happens any more
+		// (nested calls failing at entry): the guest side of the cycle does not stop
+		r.HostAfter++
+		if r.HostAfter > st.cap+3 {
+			r.Capped = true
+			panic(errCap)
+		}
+	}
 	if r.ClosedSeen {
 		// a tick had observed the module closed before this nested call returned: it must have failed
-		if cl != "exit" || code != st.want {
+		overflowOK := cl == "stack-overflow" && (st.prog.Class == "recursion" || st.prog.Class == "hostrec")
+		if (cl != "exit" || code != st.want) && !overflowOK {
 			if len(r.HostBad) < 4 {
 				r.HostBad = append(r.HostBad, fmt.Sprintf("%s/%#x", cl, code))
 			}
 		}
-	} else if err != nil && !(cl == "exit" && m.IsClosed()) {
+	} else if err != nil && !(cl == "exit" && m.IsClosed()) &&
+		!(cl == "stack-overflow" && (st.prog.Class == "recursion" || st.prog.Class == "hostrec")) {
 		if len(r.HostBad) < 4 {
 			r.HostBad = append(r.HostBad, fmt.Sprintf("before-close:%s/%#x", cl, code))
 		}
